@@ -74,12 +74,22 @@ package parser
 //@   requires iv: len(AESIv) == 16 || (len(AESKey) != 16 && len(AESKey) != 24 && len(AESKey) != 32)
 //@   modifies p.buffer
 
+// The two string readers consume exactly one length-prefixed field (like ParseBytes) and turn
+// that field's bytes - all of them, nothing else - into the string (decoded resp. converted, NULs stripped).
+//@ spec fieldLen(b, be) = min(u32of(b, be), len(b) - 4)
 //@ func (p *Parser) ParseUTF16String() (s string)
 //@   requires nonnil: p != nil
 //@   modifies p.buffer
+//@   ensures short: old(len(p.buffer)) < 4 ==> sameslice(p.buffer, old(p.buffer))
+//@   ensures rest:  old(len(p.buffer)) >= 4 ==> sameslice(p.buffer, old(p.buffer)[4+fieldLen(old(p.buffer), p.bigEndian):])
+//@   guard-call field: "DecodeUTF16" sameslice(arg(0), lastresult(ParseBytes))
+//@   guard-call strip: "StripNull" arg(0) == lastresult(DecodeUTF16)
 //@ func (p *Parser) ParseString() (s string)
 //@   requires nonnil: p != nil
 //@   modifies p.buffer
+//@   ensures short: old(len(p.buffer)) < 4 ==> sameslice(p.buffer, old(p.buffer))
+//@   ensures rest:  old(len(p.buffer)) >= 4 ==> sameslice(p.buffer, old(p.buffer)[4+fieldLen(old(p.buffer), p.bigEndian):])
+//@   guard-call field: "StripNull" strofbytes(arg(0), lastresult(ParseBytes))
 
 // CanIRead answers exactly whether the listed fields can be read one after the other:
 // endof(k) is the offset after the first k fields, or -1 once a field does not fit.
